@@ -132,8 +132,8 @@ func selfTest() error {
 		return fmt.Errorf("freeze self-test: frozen classifier gives %s, original %s", got, want)
 	}
 	rep = simrt.New(choice.Replay(nil), simrt.Config{Strategy: simrt.StratSticky}).Run(func() {
-		// store into the frozen Classifier struct itself
-		p := (*byte)(unsafe.Pointer(fc))
+		// store (the value already there) into the first frozen object
+		p := (*byte)(unsafe.Pointer(arena.Base()))
 		poke(p, peek(p))
 	})
 	for _, p := range rep.Panics {
@@ -253,6 +253,11 @@ func run(c *hlib.Ctx) *hlib.Run {
 }
 
 func runOnce(c *hlib.Ctx, s *choice.Stream, freezeClock bool) *hlib.Run {
+	out, _ := runAttempt(c, s, freezeClock)
+	return out
+}
+
+func runAttempt(c *hlib.Ctx, s *choice.Stream, freezeClock bool) (*hlib.Run, int64) {
 	out := &hlib.Run{Counters: map[string]int64{}}
 	w := worlds[s.Pick([]int{5, 5, 1, 2}, "world")]
 	ww := w
@@ -327,11 +332,11 @@ func runOnce(c *hlib.Ctx, s *choice.Stream, freezeClock bool) *hlib.Run {
 	})
 	if v := trapViolation(soloRep, ww, "a single Match call run alone"); v != nil {
 		out.Violation = v
-		return out
+		return out, 0
 	}
 	if len(soloRep.Panics) > 0 {
 		out.Counters["workload_rejected_solo_call_panics"]++
-		return out
+		return out, 0
 	}
 	var fpBefore uint64
 	doFP := !isFull || s.Draw(8, "fingerprint-full") == 0
@@ -409,47 +414,47 @@ func runOnce(c *hlib.Ctx, s *choice.Stream, freezeClock bool) *hlib.Run {
 	// ---- oracles ---------------------------------------------------------------
 	if v := trapViolation(rep, w, "concurrent Match/MatchFrom calls"); v != nil {
 		out.Violation = v
-		return out
+		return out, 0
 	}
 	if len(rep.Panics) > 0 {
 		p := rep.Panics[0]
 		out.Violation = &hlib.Violation{Oracle: "no-panic", Class: "panic:" + firstLine(p.Value), Message: fmt.Sprintf("task %d (%s) panicked: %s\n%s", p.Task, p.Name, p.Value, trimStack(p.Stack))}
-		return out
+		return out, 0
 	}
 	if rep.Deadlock != "" {
 		out.Violation = &hlib.Violation{Oracle: "no-deadlock", Class: "deadlock:" + siteList(rep.Deadlock), Message: "deadlock: " + rep.Deadlock}
-		return out
+		return out, 0
 	}
 	if rep.StepBound {
 		out.Counters["inconclusive_step_bound"]++
-		return out
+		return out, 0
 	}
 	if len(rep.Races) > 0 {
 		rc := rep.Races[0]
 		out.Violation = &hlib.Violation{Oracle: "race-free", Class: "race:" + rc.Class(), Message: "data race: " + rc.String()}
-		return out
+		return out, 0
 	}
 	if len(rep.Leaked) > 0 {
 		out.Violation = &hlib.Violation{Oracle: "no-leak", Class: "goroutine-leak", Message: "goroutines started by Match still blocked after all calls returned: " + strings.Join(rep.Leaked, "; ")}
-		return out
+		return out, 0
 	}
 	for t := range plan {
 		for _, k := range plan[t] {
 			if !bytes.Equal(k.data, inputs[k.input].Data) {
 				out.Violation = &hlib.Violation{Oracle: "caller-buffer-unchanged", Class: "input-modified", Message: fmt.Sprintf("task %d: the caller's byte slice was modified", t)}
-				return out
+				return out, 0
 			}
 			if k.fault != nil {
 				out.Counters["fault_reader_error_injected"]++
 				if k.err == nil || len(k.res.Matches) != 0 {
 					out.Violation = &hlib.Violation{Oracle: "failing-call-isolated", Class: "reader-fault-mishandled", Message: fmt.Sprintf("task %d: reader failed with %s at %d but MatchFrom returned err=%v and %s", t, k.errKind, k.fault.At, k.err, v2kit.Pretty(k.res))}
-					return out
+					return out, 0
 				}
 				continue
 			}
 			if k.err != nil {
 				out.Violation = &hlib.Violation{Oracle: "no-error", Class: "error-without-fault", Message: fmt.Sprintf("task %d: MatchFrom returned %v from a reader that never fails", t, k.err)}
-				return out
+				return out, 0
 			}
 			if d := v2kit.FirstDiff(solo[k.input], k.res); d != "" {
 				api := "Match"
@@ -458,7 +463,7 @@ func runOnce(c *hlib.Ctx, s *choice.Stream, freezeClock bool) *hlib.Run {
 				}
 				out.Violation = &hlib.Violation{Oracle: "solo-equivalence", Class: "differs-from-solo:" + d,
 					Message: fmt.Sprintf("task %d: %s(input %d %q) returned something else than the same call alone (first difference: %s)\n  alone:      %s\n  concurrent: %s", t, api, k.input, inputs[k.input].Desc, d, v2kit.Pretty(solo[k.input]), v2kit.Pretty(k.res))}
-				return out
+				return out, 0
 			}
 		}
 	}
@@ -471,13 +476,13 @@ func runOnce(c *hlib.Ctx, s *choice.Stream, freezeClock bool) *hlib.Run {
 	})
 	if v := trapViolation(soloRep2, w, "a single Match call after the concurrent phase"); v != nil {
 		out.Violation = v
-		return out
+		return out, 0
 	}
 	for i := range after {
 		if d := v2kit.FirstDiff(solo[i], after[i]); d != "" && len(soloRep2.Panics) == 0 {
 			out.Violation = &hlib.Violation{Oracle: "no-persistent-corruption", Class: "solo-after-differs:" + d,
 				Message: fmt.Sprintf("Match(input %d %q) alone gives a different result after the concurrent phase than before it (first difference: %s)\n  before: %s\n  after:  %s", i, inputs[i].Desc, d, v2kit.Pretty(solo[i]), v2kit.Pretty(after[i]))}
-			return out
+			return out, 0
 		}
 	}
 	if doFP {
@@ -486,7 +491,7 @@ func runOnce(c *hlib.Ctx, s *choice.Stream, freezeClock bool) *hlib.Run {
 			out.Violation = &hlib.Violation{Oracle: "shared-maps-unchanged", Class: "map-state-changed", Message: "the contents of the maps reachable from the classifier changed during Match calls"}
 		}
 	}
-	return out
+	return out, 0
 }
 
 // trapViolation turns a fault inside the frozen arena into a violation.
@@ -495,7 +500,7 @@ func trapViolation(rep *simrt.Report, w *world, during string) *hlib.Violation {
 		if p.Fault && w.arena != nil && w.arena.Contains(p.FaultAddr) {
 			frames := topFrames(p.Stack, 4)
 			return &hlib.Violation{Oracle: "frozen-corpus", Class: "write-to-shared-corpus:" + strings.Join(frames, "<-"),
-				Message: fmt.Sprintf("store into pre-existing classifier memory (address %#x in the read-only arena) during %s, task %d (%s): under the memory model this is a data race as soon as two calls touch the same document\n%s", p.FaultAddr, during, p.Task, p.Name, trimStack(p.Stack))}
+				Message: fmt.Sprintf("store into pre-existing classifier memory (address %#x in the read-only arena) during %s, task %d (%s): under the memory model this is a data race as soon as two calls touch the same location\n%s", p.FaultAddr, during, p.Task, p.Name, trimStack(p.Stack))}
 		}
 	}
 	return nil
@@ -616,7 +621,7 @@ func main() {
 			var fz []string
 			for _, w := range worlds {
 				if w.arena != nil {
-					fz = append(fz, fmt.Sprintf("%s: %d objects, %d bytes, %d maps left on the heap, not frozen: %v", w.name, w.arena.Objects, w.arena.Bytes, w.arena.Maps, w.arena.Skipped))
+					fz = append(fz, fmt.Sprintf("%s: %d objects, %d bytes, %d maps left on the heap, not frozen: %v, left unfrozen because they contain a lock (their fields are race-checked instead): %v", w.name, w.arena.Objects, w.arena.Bytes, w.arena.Maps, w.arena.Skipped, w.arena.Unfrozen))
 				}
 			}
 			info["frozen_worlds"] = fz
